@@ -165,7 +165,7 @@ func init() {
 			{Pkg: "bkl", Func: "HarnessC10_inline", Tiers: "qt", Covers: []string{"form.mapmerge", "form.replace", "form.listmerge", "inline.accepted", "inline.mergefails"},
 				Bound: "document {t:{x:T,\"p.q\":T2}, h:HOST, o:1}; T any tree of depth<=1 (quick) / 2 (thorough); 9 reference spellings (map $merge with dotted / list path / list path through a dotted key, map $replace, $merge: and $replace: strings, list-entry $merge / $replace, YAML flow-list path); local content any subset of {a,b}; compared with the hand-inlined twin through the same pipeline; the target's own output unchanged"},
 			{Pkg: "bkl", Func: "HarnessC10_cross", Tiers: "qt", Covers: []string{"cross.unique", "cross.ambiguous"},
-				Bound: "streams of 2-3 documents with ids; $merge/$replace in {$match,$path} and [pattern, path] form; zero, one or two matching documents"},
+				Bound: "streams of 2-3 documents with ids; $merge/$replace in {$match,$path} form with a dotted-string or list $path and in [pattern, path...] form, target two levels down next to a literal key \"t.u\"; zero, one or two matching documents"},
 			{Pkg: "bkl", Func: "HarnessC10_dangling", Tiers: "qt", Covers: []string{"dangling.checked"},
 				Bound: "6 dangling paths x 4 host forms"},
 		},
@@ -181,6 +181,8 @@ func init() {
 				Bound: "$repeat: n (n in [-1,4]) inside a list entry and inside a map entry with an interpolated key"},
 			{Pkg: "bkl", Func: "HarnessC12_named", Tiers: "qt", Covers: []string{"named.checked"},
 				Bound: "named counts x,y each in [-1,2] (quick) / [-1,3] plus optional third name (thorough): product, order, bindings"},
+			{Pkg: "bkl", Func: "HarnessC12_scopes", Tiers: "qt", Covers: []string{"scopes.doc", "scopes.list", "scopes.map"},
+				Bound: "a repeat (n in [-1,2]) at document, list-entry or map-entry level around an inner list-entry or map-entry repeat (m in [-1,2]); the outer index is used in a key evaluated before and one evaluated after the inner repeat"},
 			{Pkg: "bkl", Func: "HarnessC12_badcount", Tiers: "qt", Covers: []string{"badcount.checked"},
 				Bound: "any non-integer scalar as count at document, list-entry and map-entry level"},
 		},
@@ -194,8 +196,8 @@ func init() {
 				Bound: "templates of 1-4 segments: literals of <= 2 (quick) / 3 (thorough) printable bytes without $ and { (closing braces, colons, quotes allowed), references to a scalar path (bool, int in [-9,9], token, symbolic string), to $env:FOO (every printable value of <= 2/3 bytes) and to a nested path"},
 			{Pkg: "bkl", Func: "HarnessC13_env", Tiers: "qt", Covers: []string{"env.checked", "env.key"},
 				Bound: "$env:NAME as whole value and as key; FOO every printable string of <= 4 (quick) / 6 (thorough) bytes outside region C13-K1; values that look like a bool and a number stay strings"},
-			{Pkg: "bkl", Func: "HarnessC13_missing", Tiers: "qt", Covers: []string{"missing.checked"},
-				Bound: "missing path / unset variable in interpolation, as value and as key"},
+			{Pkg: "bkl", Func: "HarnessC13_missing", Tiers: "qt", Covers: []string{"missing.checked", "missing.multi"},
+				Bound: "missing path / unset variable in interpolation, as value and as key; templates of 2-3 references each resolving or missing (path, nested path, $env), a missing one at any position"},
 		},
 		Assume:  pipeAssume,
 		Outside: "float formatting (%v of a symbolic double); literal segments containing {; known finding C13-K1 (environment values or results containing $$ or shaped like a directive)",
@@ -244,7 +246,7 @@ func init() {
 		ID: "C19",
 		Harnesses: []harnessSpec{
 			{Pkg: "bkl", Func: "HarnessC19_history", Tiers: "qt", Covers: []string{"history.repeat", "history.merge", "history.documents", "history.withoutput"},
-				Bound: "1-2 documents from 7 families ($merge, $replace + $merge: string, document $repeat, $encode, $output true/false + list $repeat, interpolation + null, plain), then 3 (quick) / 4 (thorough) calls each chosen from {OutputDocuments, MergeDocument(next layer: add key | change value | $match: null append), Documents}; a twin parser receives the same merges and is never asked for output"},
+				Bound: "1-2 documents from 9 families ($merge, $replace + $merge: string, document $repeat, $encode, $output true/false + list $repeat, interpolation + null, plain, forward cross-document $replace, its target holding a nested $merge), then 3 (quick) / 4 (thorough) calls each chosen from {OutputDocuments, MergeDocument(next layer: add key | change value | change what a nested $merge resolves to | $match: null append), Documents}; a twin parser receives the same merges and is never asked for output"},
 		},
 		Assume:  pipeAssume,
 		Outside: "format-specific Output/OutputToWriter/OutputToFile (they add only the codec to OutputDocuments); MergeFileLayers (C03); more than 4 calls",
